@@ -7,41 +7,170 @@
  *  S5  closeOnBackpressure: over the limit => closed; while open nothing is dropped (S1) and the queue stays within the limit
  *  SP  progress is a prefix: G_written only grows and never passes A'
  *  SB  statistics: bytesOut grows by exactly the number of bytes handed over
- */
+ *  SC  a close is reported exactly once, for this session, and the session leaves the table
+ *  FR  frame: nothing else of the session / engine changes
+ *
+ * Two forms of the same contracts:
+ *   plain harnesses (h_writePending, h_doSend*): assume the precondition on a nondeterministic state, call the extracted function
+ *     (loop closed by its loop contract), assert every clause; the frame is an explicit field-by-field comparison with a snapshot.
+ *     closeNow's stub DESTROYS the session, so a use after close is a failed pointer obligation.
+ *   DFCC contracts (*_contract): the tool checks the assigns clause (frame) on every assignment. */
 #define OLD(e) __CPROVER_old(e)
-#define NOT_CLOSED_NOW (G_close_calls == OLD(G_close_calls))
 
-#define WP_PRE \
-__CPROVER_requires(IORA_TRUE && __CPROVER_is_fresh(self, sizeof(*self)) && __CPROVER_is_fresh(s, sizeof(*s))) \
-/* s is the table entry of its id (sessions are only reachable through _sessions / _fdTags) */ \
-__CPROVER_requires(self->_sessions.has && self->_sessions.val == s && s->id == iora_sessmap_GKEY) \
-__CPROVER_requires(!s->closed && TLS_INV(s) && !TLS_HANDSHAKING(s))   /* onSession(): writePending only runs once the handshake is over */ \
-__CPROVER_requires(STREAM(s, G_A) && G_written <= G_A && G_A < POS_BOUND) \
-__CPROVER_requires(G_close_calls < 1000) \
-__CPROVER_assigns(s->wq, s->wantWrite, s->tlsWantWrite, s->lastWriteProgress, s->closed, s->writeStallTimeoutId, self->_sessions.has, self->_atomicStats.bytesOut, \
-                  G_written, G_errno, G_send_calls, G_sslw_calls, G_ssl_last_ret, G_close_calls, G_close_sid, G_close_why, \
-                  G_ep_fd, G_ep_events, G_ep_op, G_ep_epfd, G_ep_mods, G_ep_dels)
+/* ---------- shared by both forms ---------- */
+#define SESSION_FRAME_OK(s, s0) ((s)->id == (s0).id && (s)->fd == (s0).fd && (s)->tlsMode == (s0).tlsMode && (s)->ssl == (s0).ssl && (s)->tlsState == (s0).tlsState \
+  && (s)->tlsStart == (s0).tlsStart && (s)->created == (s0).created && (s)->connectPending == (s0).connectPending \
+  && (s)->connectStart == (s0).connectStart && (s)->connectTimeoutId == (s0).connectTimeoutId && (s)->handshakeTimeoutId == (s0).handshakeTimeoutId)
+#define CONFIG_EQ(a, b) ((a).ioReadChunk == (b).ioReadChunk && (a).maxWriteQueue == (b).maxWriteQueue && (a).closeOnBackpressure == (b).closeOnBackpressure \
+  && (a).useEdgeTriggered == (b).useEdgeTriggered && (a).connectTimeout.ticks == (b).connectTimeout.ticks && (a).handshakeTimeout.ticks == (b).handshakeTimeout.ticks \
+  && (a).writeStallTimeout.ticks == (b).writeStallTimeout.ticks)
+#define STATS_EQ_EXCEPT_OUT(a, b) ((a).accepted == (b).accepted && (a).connected == (b).connected && (a).closed == (b).closed && (a).errors == (b).errors \
+  && (a).tlsHandshakes == (b).tlsHandshakes && (a).tlsFailures == (b).tlsFailures && (a).bytesIn == (b).bytesIn && (a).epollWakeups == (b).epollWakeups \
+  && (a).commands == (b).commands && (a).gcRuns == (b).gcRuns && (a).gcClosedIdle == (b).gcClosedIdle && (a).gcClosedAged == (b).gcClosedAged \
+  && (a).sessionsCurrent == (b).sessionsCurrent && (a).sessionsPeak == (b).sessionsPeak)
+#define ENGINE_FRAME_OK(e, e0) (CONFIG_EQ((e)->_config, (e0)._config) && STATS_EQ_EXCEPT_OUT((e)->_atomicStats, (e0)._atomicStats) && (e)->_epollFd == (e0)._epollFd \
+  && (e)->_cbMutex.held == (e0)._cbMutex.held && (e)->_sessionRwMutex.held == (e0)._sessionRwMutex.held && (e)->_cbs.onClose == (e0)._cbs.onClose && (e)->_cbs.onData == (e0)._cbs.onData \
+  && (e)->_sessions.val == (e0)._sessions.val && (e)->_sessions.other == (e0)._sessions.other && (e)->_fdTags.has == (e0)._fdTags.has && (e)->_fdTags.val == (e0)._fdTags.val \
+  && (e)->_timerService == (e0)._timerService)
 
-void TcpEngine_writePending_contract(TcpEngine *self, Session *s)
-WP_PRE
-/* S1 */ __CPROVER_ensures(NOT_CLOSED_NOW ? (!s->closed && self->_sessions.has && STREAM(s, G_A))
-                                          : (G_close_calls == OLD(G_close_calls) + 1 && G_close_sid == OLD(s->id) && !self->_sessions.has))
-/* SP */ __CPROVER_ensures(G_written >= OLD(G_written) && G_written <= G_A)
-/* S4 */ __CPROVER_ensures((NOT_CLOSED_NOW && s->wq.n > 0) ==> EPOLLOUT_ARMED(self, s))
-/* S4b queue drained => the write wish is withdrawn and the mask was refreshed (EPOLLIN stays armed) */
-         __CPROVER_ensures((NOT_CLOSED_NOW && s->wq.n == 0) ==> (!s->wantWrite && G_ep_op == EPOLL_CTL_MOD && G_ep_fd == s->fd && (G_ep_events & EPOLLIN) != 0))
-/* SB */ __CPROVER_ensures(self->_atomicStats.bytesOut - OLD(self->_atomicStats.bytesOut) == G_written - OLD(G_written))
-/* W6 plain TCP never touches OpenSSL, TLS never writes clear text */
-         __CPROVER_ensures(OLD(s->tlsMode) == TlsMode_None ? G_sslw_calls == OLD(G_sslw_calls) : G_send_calls == OLD(G_send_calls))
-;
+static inline void havoc_write_ghosts(void)
+{
+  G_written = nondet_size_t(); G_errno = nondet_int(); G_send_calls = nondet_unsigned(); G_sslw_calls = nondet_unsigned(); G_ssl_last_ret = nondet_int();
+  G_close_calls = nondet_unsigned(); G_close_sid = nondet_u64(); G_close_why = nondet_int();
+  G_ep_fd = nondet_int(); G_ep_events = nondet_unsigned(); G_ep_op = nondet_int(); G_ep_epfd = nondet_int(); G_ep_mods = nondet_unsigned(); G_ep_dels = nondet_unsigned();
+  G_A = nondet_size_t(); iora_sessmap_GKEY = nondet_u64(); IORA_TRUE = 1;
+}
+
+/* ===================== writePending ===================== */
+/* precondition (both forms). Sources: s is reachable only through _sessions/_fdTags, so it is the table entry of its id;
+ * onSession() calls writePending only when the TLS handshake is over; STREAM is the invariant every function here preserves. */
+#define WP_PRE_COND(self, s) ((self)->_sessions.has && (self)->_sessions.val == (s) && (s)->id == iora_sessmap_GKEY \
+  && !(s)->closed && TLS_INV(s) && !TLS_HANDSHAKING(s) && STREAM(s, G_A) && G_written <= G_A && G_A < POS_BOUND && G_close_calls < 1000)
 
 void h_writePending(void)
 {
-  TcpEngine *self; Session *s;
-  unsigned c0 = G_close_calls;
+  TcpEngine E; TcpEngine *self = &E;
+  Session *s = malloc(sizeof(Session)); __CPROVER_assume(s != NULL);
+  iora_canon_session(s); iora_canon_engine(self);
+  self->_sessions.val = s;       /* pointers are ASSIGNED: CBMC does not alias a nondeterministic pointer with an object it is merely assumed equal to */
+  havoc_write_ghosts();
+  __CPROVER_assume(WP_PRE_COND(self, s));
+  Session s0 = *s; TcpEngine E0 = E;
+  unsigned c0 = G_close_calls, sc0 = G_send_calls, ss0 = G_sslw_calls; size_t w0 = G_written;
   TcpEngine_writePending(self, s);
   IORA_CANARY("h_writePending: returns");
-  if (G_close_calls != c0) { IORA_CANARY("h_writePending: closed"); }
-  else if (G_written < G_A) { IORA_CANARY("h_writePending: still queued"); }
-  else { IORA_CANARY("h_writePending: drained"); }
+  if (G_close_calls == c0)
+  {
+    __CPROVER_assert(!s->closed && self->_sessions.has, "S1 not closed: the session stays open and in the table");
+    __CPROVER_assert(STREAM(s, G_A), "S1 STREAM: the queue tiles [G_written, A) - nothing lost, duplicated or reordered");
+    __CPROVER_assert(s->wq.n == 0 || EPOLLOUT_ARMED(self, s), "S4 queue non-empty => EPOLLOUT registered for the session's fd (no lost re-arm)");
+    __CPROVER_assert(s->wq.n == 0 || s->wantWrite, "S4 queue non-empty => wantWrite stays set");
+    __CPROVER_assert(s->wq.n != 0 || (!s->wantWrite && G_ep_op == EPOLL_CTL_MOD && G_ep_fd == s->fd && (G_ep_events & EPOLLIN) != 0),
+                     "S4b queue drained => write wish withdrawn, interest mask refreshed with EPOLLIN");
+    __CPROVER_assert(s->wq.n != 0 || s->connectPending || (G_ep_events & EPOLLOUT) == 0, "S4c queue drained => EPOLLOUT no longer registered (no busy loop)");
+    __CPROVER_assert(SESSION_FRAME_OK(s, s0) && s->lastActivity == s0.lastActivity, "FR session fields outside the write state are unchanged");
+    if (s->wq.n > 0) { IORA_CANARY("h_writePending: still queued"); } else { IORA_CANARY("h_writePending: drained"); }
+  }
+  else
+  {
+    __CPROVER_assert(G_close_calls == c0 + 1 && G_close_sid == s0.id && !self->_sessions.has, "SC closed exactly once, reported for this session, erased from the table");
+    __CPROVER_assert(G_close_why == TransportError_Socket || G_close_why == TransportError_TLSIO, "SC close reason is an I/O error");
+    IORA_CANARY("h_writePending: closed");
+  }
+  __CPROVER_assert(G_written >= w0 && G_written <= G_A, "SP what reached the kernel is a prefix of the accepted stream");
+  __CPROVER_assert(self->_atomicStats.bytesOut - E0._atomicStats.bytesOut == G_written - w0, "SB bytesOut counts exactly the bytes handed over");
+  __CPROVER_assert(s0.tlsMode == TlsMode_None ? G_sslw_calls == ss0 : G_send_calls == sc0, "W6 plain TCP never calls SSL_write, TLS never calls send (no clear text)");
+  __CPROVER_assert(ENGINE_FRAME_OK(self, E0) && self->_atomicStats.backpressureCloses == E0._atomicStats.backpressureCloses, "FR engine state outside bytesOut/_sessions is unchanged");
 }
+
+/* DFCC form */
+void TcpEngine_writePending_contract(TcpEngine *self, Session *s)
+__CPROVER_requires(IORA_TRUE && __CPROVER_is_fresh(self, sizeof(*self)) && __CPROVER_is_fresh(s, sizeof(*s)))
+__CPROVER_requires(WP_PRE_COND(self, s))
+__CPROVER_assigns(s->wq, s->wantWrite, s->tlsWantWrite, s->lastWriteProgress, s->closed, s->writeStallTimeoutId, self->_sessions.has, self->_atomicStats.bytesOut,
+                  G_written, G_errno, G_send_calls, G_sslw_calls, G_ssl_last_ret, G_close_calls, G_close_sid, G_close_why,
+                  G_ep_fd, G_ep_events, G_ep_op, G_ep_epfd, G_ep_mods, G_ep_dels)
+/* S1 */ __CPROVER_ensures(G_close_calls == OLD(G_close_calls) ? (!s->closed && self->_sessions.has && STREAM(s, G_A))
+                                          : (G_close_calls == OLD(G_close_calls) + 1 && G_close_sid == OLD(s->id) && !self->_sessions.has))
+/* SP */ __CPROVER_ensures(G_written >= OLD(G_written) && G_written <= G_A)
+/* S4 */ __CPROVER_ensures((G_close_calls == OLD(G_close_calls) && s->wq.n > 0) ==> EPOLLOUT_ARMED(self, s))
+;
+void h_writePending_dfcc(void) { TcpEngine *self; Session *s; TcpEngine_writePending(self, s); IORA_CANARY("h_writePending_dfcc: returns"); }
+
+/* ===================== doSend ===================== */
+/* precondition (both forms): the request is for the witness id; its payload is non-empty (TcpEngine::send returns early for n == 0)
+ * and is the NEXT interval of the accepted stream; if the session exists it is the table entry of its id, and while open it
+ * satisfies STREAM up to the start of this payload. */
+#define DS_PRE_COND(self, sr, s) ((sr)->sid == iora_sessmap_GKEY && (sr)->payload.lo < (sr)->payload.hi && (sr)->payload.hi < POS_BOUND && G_close_calls < 1000 \
+  && (!(self)->_sessions.has || ((self)->_sessions.val == (s) && (s)->id == iora_sessmap_GKEY && TLS_INV(s) \
+                                 && ((s)->closed || (STREAM(s, (sr)->payload.lo) && G_written <= (sr)->payload.lo)))))
+/* default policy (the property's scope): close on backpressure; the non-default drop-oldest policy only matters once the limit is exceeded */
+#define DS_NO_DROP(cfg, n0) ((cfg).closeOnBackpressure || (n0) < (cfg).maxWriteQueue)
+
+void h_doSend(void)
+{
+  TcpEngine E; TcpEngine *self = &E;
+  Session *s = malloc(sizeof(Session)); __CPROVER_assume(s != NULL);
+  iora_canon_session(s); iora_canon_engine(self);
+  self->_sessions.val = s;       /* pointers are ASSIGNED: CBMC does not alias a nondeterministic pointer with an object it is merely assumed equal to */
+  SendReq R; SendReq *sr = &R;
+  havoc_write_ghosts();
+  __CPROVER_assume(DS_PRE_COND(self, sr, s));
+  Session s0 = *s; TcpEngine E0 = E; SendReq R0 = R;
+  unsigned c0 = G_close_calls, sc0 = G_send_calls, ss0 = G_sslw_calls, m0 = G_ep_mods; size_t w0 = G_written;
+  TcpEngine_doSend(self, sr);
+  IORA_CANARY("h_doSend: returns");
+  if (!E0._sessions.has || s0.closed)
+  {
+    __CPROVER_assert(G_written == w0 && G_send_calls == sc0 && G_sslw_calls == ss0 && G_close_calls == c0 && G_ep_mods == m0,
+                     "D0 unknown or closed session: nothing is written, registered or reported");
+    __CPROVER_assert(!E0._sessions.has || (s->closed && s->wq.n == s0.wq.n && s->wq.front.lo == s0.wq.front.lo && s->wq.front.hi == s0.wq.front.hi && s->wq.end == s0.wq.end
+                                           && s->wantWrite == s0.wantWrite && SESSION_FRAME_OK(s, s0)), "D0 closed session: untouched");
+    __CPROVER_assert(self->_sessions.has == E0._sessions.has, "D0 table unchanged");
+    IORA_CANARY("h_doSend: no open session");
+  }
+  else if (G_close_calls == c0)
+  {
+    __CPROVER_assert(!s->closed && self->_sessions.has, "S1 not closed: the session stays open and in the table");
+    __CPROVER_assert(!DS_NO_DROP(E0._config, s0.wq.n) || STREAM(s, R0.payload.hi), "S1 STREAM: the queue tiles [G_written, A+n) - the payload is accepted exactly once, in order");
+    __CPROVER_assert(!TLS_HANDSHAKING(&s0) || (G_send_calls == sc0 && G_sslw_calls == ss0 && G_written == w0 && s->wq.n == s0.wq.n + 1),
+                     "S3 TLS handshake in progress: nothing is written (no clear text), the payload is queued");
+    __CPROVER_assert(s->wq.n == 0 || (EPOLLOUT_ARMED(self, s) && s->wantWrite), "S4 queue non-empty => EPOLLOUT registered for the session's fd (no lost re-arm)");
+    __CPROVER_assert(!E0._config.closeOnBackpressure || TLS_HANDSHAKING(&s0) || s->wq.n <= E0._config.maxWriteQueue,
+                     "S5 still open (and not in the TLS handshake, where everything is parked) => the queue is within maxWriteQueue");
+    __CPROVER_assert(s->wq.n <= s0.wq.n + 1, "S5b at most this one buffer is added");
+    __CPROVER_assert(SESSION_FRAME_OK(s, s0), "FR session fields outside the write state are unchanged");
+    if (s->wq.n > 0) { IORA_CANARY("h_doSend: queued"); } else { IORA_CANARY("h_doSend: written completely"); }
+  }
+  else
+  {
+    __CPROVER_assert(G_close_calls == c0 + 1 && G_close_sid == s0.id && !self->_sessions.has, "SC closed exactly once, reported for this session, erased from the table");
+    __CPROVER_assert(G_close_why == TransportError_Socket || G_close_why == TransportError_TLSIO || G_close_why == TransportError_WriteBackpressure, "SC close reason");
+    __CPROVER_assert(G_close_why != TransportError_WriteBackpressure || (E0._config.closeOnBackpressure && s0.wq.n >= E0._config.maxWriteQueue && G_written == w0),
+                     "S5c a backpressure close happens only over the limit and under the close policy");
+    IORA_CANARY("h_doSend: closed");
+  }
+  __CPROVER_assert(G_written >= w0 && (G_written == w0 || G_written <= R0.payload.hi), "SP what reached the kernel is a prefix of the accepted stream");
+  __CPROVER_assert(G_written == w0 || (E0._sessions.has && !s0.closed && s0.wq.n == 0 && w0 == R0.payload.lo), "SP2 a direct write happens only when nothing older is queued");
+  __CPROVER_assert(self->_atomicStats.bytesOut - E0._atomicStats.bytesOut == G_written - w0, "SB bytesOut counts exactly the bytes handed over");
+  __CPROVER_assert(!E0._sessions.has || (s0.tlsMode == TlsMode_None ? G_sslw_calls == ss0 : G_send_calls == sc0), "W6 plain TCP never calls SSL_write, TLS never calls send (no clear text)");
+  __CPROVER_assert(ENGINE_FRAME_OK(self, E0), "FR engine state outside bytesOut/backpressureCloses/_sessions is unchanged");
+}
+
+/* DFCC form (frame by the tool). The session object is reached through the table. */
+#define DS_S (self->_sessions.val)
+void TcpEngine_doSend_contract(TcpEngine *self, SendReq *sr)
+__CPROVER_requires(IORA_TRUE && __CPROVER_is_fresh(self, sizeof(*self)) && __CPROVER_is_fresh(sr, sizeof(*sr)))
+__CPROVER_requires(self->_sessions.has && __CPROVER_is_fresh(self->_sessions.val, sizeof(Session)))
+__CPROVER_requires(DS_PRE_COND(self, sr, DS_S) && !DS_S->closed && self->_config.closeOnBackpressure)
+__CPROVER_assigns(DS_S->wq, DS_S->wantWrite, DS_S->lastActivity, DS_S->lastWriteProgress, DS_S->closed, DS_S->writeStallTimeoutId,
+                  self->_sessions.has, self->_atomicStats.bytesOut, self->_atomicStats.backpressureCloses,
+                  G_written, G_errno, G_send_calls, G_sslw_calls, G_ssl_last_ret, G_close_calls, G_close_sid, G_close_why,
+                  G_ep_fd, G_ep_events, G_ep_op, G_ep_epfd, G_ep_mods, G_ep_dels)
+/* S1 */ __CPROVER_ensures(G_close_calls == OLD(G_close_calls) ? (!DS_S->closed && self->_sessions.has && STREAM(DS_S, OLD(sr->payload.hi)))
+                                          : (G_close_calls == OLD(G_close_calls) + 1 && !self->_sessions.has))
+/* S3 */ __CPROVER_ensures((OLD(DS_S->tlsMode) != TlsMode_None && OLD(DS_S->tlsState) == TlsState_Handshake) ==> (G_send_calls == OLD(G_send_calls) && G_sslw_calls == OLD(G_sslw_calls) && G_written == OLD(G_written)))
+/* S4 */ __CPROVER_ensures((G_close_calls == OLD(G_close_calls) && DS_S->wq.n > 0) ==> EPOLLOUT_ARMED(self, DS_S))
+/* SP */ __CPROVER_ensures(G_written >= OLD(G_written) && G_written <= OLD(sr->payload.hi))
+;
+void h_doSend_dfcc(void) { TcpEngine *self; SendReq *sr; TcpEngine_doSend(self, sr); IORA_CANARY("h_doSend_dfcc: returns"); }
